@@ -46,6 +46,7 @@ def plan(tier, seed):
     specs += [{'kind': 'random_splits', 'part': p, 'n': 150 if tier == 'quick' else 2500} for p in range(4)]
     specs += [{'kind': 'faults', 'part': p, 'parts': 2} for p in range(2)]
     specs += [{'kind': 'tcp', 'part': p, 'rounds': 6 if tier == 'quick' else 48} for p in range(4)]
+    specs += [{'kind': 'codecs', 'part': p, 'n': 40 if tier == 'quick' else 600} for p in range(2)]
     specs.append({'kind': 'to_mllp', 'n': 60 if tier == 'quick' else 1500})
     specs.append({'kind': 'big_replies', 'sizes': [70000, 300000, 1200000, 5000000] if tier == 'quick' else
                   [70000, 300000, 1200000, 5000000, 20000000, 3000000, 9000000, 65536, 65537, 262144]})
@@ -80,7 +81,7 @@ def one_connection(drv, hist, chunks, payload, kind, rec, case, sig, nontrivial=
         rec.violation('handler-thread-still-running', case, {'ending': ending})
         return
     for cause, detail in mllpdrv.check_connection(evs, payload, received, ending, reg or REG, kind,
-                                                  None if reg else REG_ARGS):
+                                                  None if reg else REG_ARGS, encoding=drv.encoding):
         rec.violation(cause, case, detail)
     rec.count('connections_checked:%s' % kind)
     rec.seen('endings', ending)
@@ -159,6 +160,43 @@ def run_random_splits(spec, rec):
                 rec.sample({'kind': 'random_split', 'msgkind': kind, 'bytes': len(data), 'cuts': cuts})
     finally:
         drv.close()
+
+
+CODECS = {'latin-1': 'Müller^Jörg é ñ ß þ', 'cp1252': 'Müller € „x“ œ', 'iso-8859-15': 'Renée € Š œ', 'cp437': 'Müller ░ π',
+          'utf-8': 'Müller 日本語 \U0001F600', 'ascii': 'plain'}
+
+
+def run_codecs(spec, rec):
+    """a request handler class with its own `encoding` (the way to serve another character set): the payload is decoded
+    and the reply encoded with that one codec - the client receives the handler's reply, character for character"""
+    rng = gen.rng_for(spec['seed'], 'c16-codecs', spec['part'])
+    for enc in sorted(CODECS):
+        hist = mllpdrv.History()
+        drv = mllpdrv.PairDriver(handlers_for(hist), encoding=enc)
+        try:
+            words = CODECS[enc].split(' ')
+            for i in range(spec['n']):
+                kind = rng.choice(['registered', 'registered', 'unregistered', 'nonhl7'])
+                if kind == 'nonhl7':
+                    text = 'HELLO ' + rng.choice(words)
+                else:
+                    m9 = rng.choice(['ADT^A01^ADT_A01', 'ORU^R01^ORU_R01', 'ADT^A01'] if kind == 'registered' else
+                                    ['ADT^A02^ADT_A02', 'ZZZ^Z01'])
+                    text = 'MSH|^~\\&|SND|FAC|RCV|FAC|20200101||%s|c%d|P|2.5' % (m9, rng.randrange(10 ** 6))
+                    for j in range(rng.randint(1, 3)):
+                        text += '\rPID|%d||%s' % (j + 1, ' '.join(rng.choice(words) for _ in range(rng.randint(1, 4))))
+                data = mllpdrv.frame(text, enc)
+                k = rng.randint(1, 5)
+                cuts = sorted(rng.sample(range(1, len(data)), min(k - 1, len(data) - 1))) if k > 1 else []
+                case = {'kind': 'codec', 'text': text, 'cuts': cuts, 'encoding': enc, 'msgkind': kind}
+                one_connection(drv, hist, mllpdrv.cut(data, cuts), text, 'framed', rec, case,
+                               ('codec', enc, kind, text, tuple(cuts)))
+                rec.count('connections_with_handler_class_encoding')
+                if any(ord(ch) > 127 for ch in text[-12:]):
+                    rec.count('non_ascii_replies_under_handler_class_encoding')
+            rec.seen('handler_class_encodings', enc)
+        finally:
+            drv.close()
 
 
 def run_faults(spec, rec):
@@ -381,7 +419,7 @@ def run_to_mllp(spec, rec):
 
 def run_shard(spec, rec):
     {'splits': run_splits, 'random_splits': run_random_splits, 'faults': run_faults, 'tcp': run_tcp,
-     'to_mllp': run_to_mllp, 'big_replies': run_big_replies}[spec['kind']](spec, rec)
+     'to_mllp': run_to_mllp, 'big_replies': run_big_replies, 'codecs': run_codecs}[spec['kind']](spec, rec)
 
 
 def replay(case, rec):
@@ -390,6 +428,11 @@ def replay(case, rec):
     try:
         if case['kind'] in ('split', 'random_split', 'tcp'):
             data = mllpdrv.frame(case['text'])
+            one_connection(drv, hist, mllpdrv.cut(data, case['cuts']), case['text'], 'framed', rec, case, ('replay',))
+        elif case['kind'] == 'codec':
+            drv.close()
+            drv = mllpdrv.PairDriver(handlers_for(hist), encoding=case['encoding'])
+            data = mllpdrv.frame(case['text'], case['encoding'])
             one_connection(drv, hist, mllpdrv.cut(data, case['cuts']), case['text'], 'framed', rec, case, ('replay',))
         elif case['kind'] == 'fault':
             chunks = [bytes.fromhex(c) if isinstance(c, str) else (tuple(c) if isinstance(c, list) else c)
@@ -420,6 +463,9 @@ def floors(tier, m):
         out.append('handler monitors reached too rarely')
     if c.get('yields_injected_in_request_handlers', 0) < 100:
         out.append('yield injection never reached the request handlers')
+    if c.get('non_ascii_replies_under_handler_class_encoding', 0) < 40:
+        out.append('non-ASCII replies under a handler class with its own encoding: %s' %
+                   c.get('non_ascii_replies_under_handler_class_encoding'))
     if c.get('to_mllp_checks', 0) < 30:
         out.append('to_mllp barely checked')
     return out
